@@ -227,7 +227,7 @@ func (runInfo *runInfoStruct) invokeMapExpr(expr *ast.MapExpr) {
 		if runInfo.err != nil {
 			return
 		}
-		key, runInfo.err = convertReflectValueToType(runInfo.rv, keyType)
+		key, runInfo.err = convertReflectValueToType(copyOfElement(runInfo.rv), keyType)
 		if runInfo.err != nil {
 			runInfo.err = newStringError(expr, "cannot use type "+key.Type().String()+" as type "+keyType.String()+" as map key")
 			runInfo.rv = nilValue
@@ -427,10 +427,13 @@ func (runInfo *runInfoStruct) invokeItemExpr(expr *ast.ItemExpr) {
 	if runInfo.err != nil {
 		return
 	}
-	// (an element that is itself a container is read now, not after the index has run)
+	// (an element that is itself a container is read now, not after the index has run;
+	// an array stays the view it is: slicing and storing address the array itself)
 	item := runInfo.rv
 	if item.Kind() == reflect.Interface && !item.IsNil() {
 		item = item.Elem()
+	} else if item.Kind() != reflect.Array {
+		item = copyOfElement(item)
 	}
 
 	runInfo.expr = expr.Index
@@ -478,6 +481,9 @@ func (runInfo *runInfoStruct) invokeSliceExpr(expr *ast.SliceExpr) {
 
 	if item.Kind() == reflect.Interface && !item.IsNil() {
 		item = item.Elem()
+	} else if item.Kind() != reflect.Array {
+		// the container read before the bounds run (an array stays the view it is)
+		item = copyOfElement(item)
 	}
 
 	switch item.Kind() {
